@@ -509,6 +509,11 @@ func (tree *MutableTree) LoadVersion(targetVersion int64) (int64, error) {
 	tree.lastSaved = iTree.clone()
 
 	if !tree.skipFastStorageUpgrade {
+		// the working tree is replaced, so the unsaved fast node changes of the
+		// previous working tree must not leak into it
+		tree.unsavedFastNodeAdditions = &sync.Map{}
+		tree.unsavedFastNodeRemovals = &sync.Map{}
+
 		// Attempt to upgrade
 		if _, err := tree.enableFastStorageAndCommitIfNotEnabled(); err != nil {
 			return 0, err
